@@ -66,9 +66,46 @@ def parallel(fn, items, work, nchunks=None):
     return [e for ch in res for e in ch]
 
 
+# rates at which rate * (k / rate) falls one ulp short of k for some sample indices k < 400 (so that truncating instead of rounding, or
+# comparing without tolerance, shows on sample positions), with recordings long enough to contain such positions
+LONG_PLANS = [(100, 2), (44100, 2), (48000, 4), (22050, 1), (11025, 2), (44100, 4)]
+_AWK = {}
+
+
+def awkward(rate, n):
+    if rate not in _AWK:
+        from fractions import Fraction
+        _AWK[rate] = [k for k in range(0, 401) if int(rate * float(Fraction(k, rate))) != k]
+    return [k for k in _AWK[rate] if k <= n]
+
+
+def long_recording(rng):
+    rate, width = LONG_PLANS[rng.randrange(len(LONG_PLANS))]
+    L = rng.choice([60, 125, 240, 400])
+    pre = A.long_ids(rng, L, width)
+    L = len(pre)
+    awk = awkward(rate, L)
+
+    def pick():
+        return (rng.choice(awk) if awk and rng.random() < 0.7 else rng.randint(0, L)) * M
+    return rate, width, pre, pick
+
+
 def rand_edit_vectors(n, seed):
     rng = random.Random(seed * 911 + 7)
     out = []
+    for _ in range(n // 8):
+        rate, width, pre, pick = long_recording(rng)
+        op = rng.choice(["getSamples", "getFrames", "getSubwav", "deleteSegment", "insert", "replaceSegment", "insDel", "queryGetSamples", "queryGetSamples"])
+        t0, t1 = sorted([pick(), pick()])
+        frames = [[], [101], [101, 102, 103]][rng.randrange(3)]
+        if op in ("insert", "insDel"):
+            args = {"t": t0, "frames": frames}
+        elif op == "replaceSegment":
+            args = {"t0": t0, "t1": t1, "frames": frames}
+        else:
+            args = {"t0": t0, "t1": t1}
+        out.append(({"op": op, "args": args, "pre": pre}, rate, width))
     ops = ["getSamples", "getFrames", "getSubwav", "deleteSegment", "insert", "replaceSegment", "concatenate", "insDel",
            "bytesRT", "saveOpen", "saveQuery", "queryGetSamples"]
     for _ in range(n):
@@ -117,7 +154,8 @@ def check_c16(prop, tier):
         items = [({"op": e["op"], "args": e["args"], "pre": e["pre"]}, r, w) for (r, w) in plans for e in emitted]
         items += rand_edit_vectors(sz["rand"], common.SEED)
         events = common.split_broken(res, prop, parallel(common.Guarded(_edit_job), items, work))
-        events += A.run_histories(sz["rand"] // 10, common.SEED, len(events), work)
+        events += common.split_broken(res, prop, A.run_histories(sz["rand"] // 10, common.SEED, len(events), work) +
+                                      A.run_query_histories(sz["rand"] // 10, common.SEED, len(events), work))
         for ev in events:
             if ev["pre"]:
                 offs = tuple(sorted((k, v % M) for k, v in ev["args"].items() if isinstance(v, int) and k.startswith("t")))
@@ -141,6 +179,18 @@ def check_c16(prop, tier):
 def rand_read_vectors(n, seed):
     rng = random.Random(seed * 577 + 3)
     out = []
+    for _ in range(n // 8):
+        rate, width, pre, pick = long_recording(rng)
+        if rng.random() < 0.6:
+            pts = sorted(set(pick() for _k in range(2 * rng.randint(1, 3))))
+            pts = pts[: len(pts) // 2 * 2]
+            ivs = [{"s": pts[i], "e": pts[i + 1]} for i in range(0, len(pts) - 1, 2)]
+            keepmode = rng.random() < 0.5
+            out.append(({"op": "readAtTimes", "args": {"keep": ivs if keepmode else [], "delete": [] if keepmode else ivs,
+                                                       "gen": rng.choice(["none", "none", "silence", "sine"])}, "pre": pre}, rate, width))
+        else:
+            t0, t1 = sorted([pick(), pick()])
+            out.append(({"op": "extractSubwav", "args": {"t0": t0, "t1": t1}, "pre": pre}, rate, width))
     for _ in range(n):
         L = rng.choice([1, 2, 3, 5, 8, 12])
         pre = rng.sample(range(1, 40), L)
@@ -304,6 +354,9 @@ def rand_zc_vectors(sz, seed):
         dy = rate in (8, 1024)
         on = rng.random() < 0.75
         t = rng.randint(0, L) * M if on else rng.randint(0, L * M)
+        if rng.random() < 0.15:
+            # arbitrary target times, also before the start and after the end: termination, range and genuineness still hold
+            t = rng.randint(-3 * L * M - 12, -1) if rng.random() < 0.5 else rng.randint(L * M + 1, 4 * L * M + 12)
         step = rng.choice([2 * M, 3 * M, 5 * M] if dy else [10, 3 * M, 5 * M + 1])
         if rng.random() < 0.04:
             step = rng.choice([1, M, M + 2])                     # fewer than two samples: must be rejected
